@@ -240,8 +240,14 @@ def _model_step(check: Check):
   ff = FuncFlow.of(repo, fi)
   check.analysed(fi)
   p_model, p_params, p_batch, p_stat = fi.positional_params[:4]
-  # mask definitions
-  mask_defs = [d for ds in ff.rd.defs_at.values() for d in ds if d.name == 'mask']
+  # the variable handed to evaluate_batch as batch_mask, and its definitions
+  eb = [c for _, c in ff.calls() if wmean.repo_fn(ff, c) == f'{MOD}:evaluate_batch']
+  MASKV = None
+  if eb:
+    b0 = call_args(eb[0], ['metric', 'batch_example', 'batch_prediction', 'batch_mask'])
+    if isinstance(b0.get('batch_mask'), ast.Name):
+      MASKV = b0['batch_mask'].id
+  mask_defs = [d for ds in ff.rd.defs_at.values() for d in ds if d.name == MASKV]
   own = fallback = False
   for d in mask_defs:
     v = d.value
@@ -252,22 +258,22 @@ def _model_step(check: Check):
     if isinstance(v, ast.Call) and ff.ext(v.func) == 'jax.numpy.ones' and any(
         isinstance(x, ast.Call) and ff.ext(x.func) == 'builtins.len' for x in ast.walk(v)):
       fallback = True
-  check.ob('R-MASK.step', fi, 'mask = batch[MASK] | ones(len(batch))', own and fallback,
+  check.ob('R-MASK.step', fi, 'mask = batch[MASK] | ones(len(batch))', own and fallback and MASKV is not None,
            f'the batch\'s own mask is used when present (ok={own}); otherwise every row counts (all-True of the batch length, '
            f'ok={fallback})')
   # evaluate_batch(metric, batch, pred, mask)
-  ok_call = False
-  for _, c in ff.calls():
-    if wmean.repo_fn(ff, c) == f'{MOD}:evaluate_batch':
-      b = call_args(c, ['metric', 'batch_example', 'batch_prediction', 'batch_mask'])
-      mk = b.get('batch_mask')
-      ok_call = isinstance(mk, ast.Name) and mk.id == 'mask' and ff.param_of(b.get('batch_example')) == p_batch
-      pred = b.get('batch_prediction')
-      ok_pred = pred is not None and any(isinstance(x, ast.Call) and txt(x.func) == f'{p_model}.apply_for_eval' and [
-          ff.param_of(a) for a in x.args] == [p_params, p_batch] for x in ff.expand(pred))
-      check.ob('R-MASK.step', fi, txt(c)[:80], ok_call and ok_pred,
-               f'every metric is evaluated on this batch with this batch\'s mask (ok={ok_call}) and the model\'s predictions '
-               f'for these params (ok={ok_pred})', node=c)
+  for c in eb[:1]:
+    b = call_args(c, ['metric', 'batch_example', 'batch_prediction', 'batch_mask'])
+    mk = b.get('batch_mask')
+    ok_call = isinstance(mk, ast.Name) and mk.id == MASKV and ff.param_of(b.get('batch_example')) == p_batch
+    pred = b.get('batch_prediction')
+    ok_pred = pred is not None and any(isinstance(x, ast.Call) and txt(x.func) == f'{p_model}.apply_for_eval' and [
+        ff.param_of(a) for a in x.args] == [p_params, p_batch] for x in ff.expand(pred))
+    check.ob('R-MASK.step', fi, 'evaluate_batch(metric, batch, apply_for_eval(params, batch), mask)', ok_call and ok_pred,
+             f'every metric is evaluated on this batch with this batch\'s mask (ok={ok_call}) and the model\'s predictions '
+             f'for these params (ok={ok_pred})', node=c)
+  if not eb:
+    check.ob('R-MASK.step', fi, 'evaluate_batch(...)', False, 'the step never evaluates the metrics on the batch')
   # merge
   ok_merge = False
   for _, rv in ff.returns():
@@ -286,16 +292,18 @@ def _evaluate_model(check: Check):
   fi = repo.func(MODELS, 'evaluate_model')
   ff = FuncFlow.of(repo, fi)
   check.analysed(fi)
-  init_ok = any(d.kind == 'assign' and isinstance(d.value, ast.DictComp) and isinstance(d.value.value, ast.Call) and txt(
-      d.value.value.func).endswith('.zero') for ds in ff.rd.defs_at.values() for d in ds if d.name == 'stat')
   loop_ok = False
+  STAT = None
   for n in ff.cfg.nodes:
     if n.kind == 'for' and ff.param_of(n.ast.iter) == fi.positional_params[2]:
       for st in n.ast.body:
         if isinstance(st, ast.Assign) and isinstance(st.value, ast.Call) and wmean.repo_fn(ff, st.value) == f'{MODELS}:_evaluate_model_step':
           b = call_args(st.value, ['model', 'params', 'batch', 'stat'])
-          loop_ok = isinstance(st.targets[0], ast.Name) and st.targets[0].id == 'stat' and isinstance(b.get('stat'), ast.Name) and b[
-              'stat'].id == 'stat' and isinstance(b.get('batch'), ast.Name) and isinstance(n.ast.target, ast.Name) and b['batch'].id == n.ast.target.id
+          if isinstance(st.targets[0], ast.Name) and isinstance(b.get('stat'), ast.Name) and st.targets[0].id == b['stat'].id:
+            STAT = st.targets[0].id
+            loop_ok = isinstance(b.get('batch'), ast.Name) and isinstance(n.ast.target, ast.Name) and b['batch'].id == n.ast.target.id
+  init_ok = STAT is not None and any(d.kind == 'assign' and isinstance(d.value, ast.DictComp) and isinstance(d.value.value, ast.Call) and txt(
+      d.value.value.func).endswith('.zero') for ds in ff.rd.defs_at.values() for d in ds if d.name == STAT)
   res_ok = any(isinstance(rv, ast.Call) and ff.ext(rv.func) in wmean.TREE_MAPS and isinstance(rv.args[0], ast.Lambda) and isinstance(
       rv.args[0].body, ast.Call) and isinstance(rv.args[0].body.func, ast.Attribute) and rv.args[0].body.func.attr == 'result'
                for _, rv in ff.returns())
